@@ -10,10 +10,11 @@ W=$(mktemp -d /var/tmp/refaccheck.XXXXXX)
 git -C /repo worktree add -q --detach "$W" HEAD || exit 2
 trap 'git -C /repo worktree remove --force "$W" >/dev/null 2>&1; rm -rf "$W"' EXIT
 S=/var/tmp/vscratch; mkdir -p $S/evidence; cp /verif/known_findings.jsonl $S/
-SETS="$@"; [ -z "$SETS" ] && SETS=$(ls /verif/refactors)
+R=${REFDIR:-/verif/refactors}
+SETS="$@"; [ -z "$SETS" ] && SETS=$(ls $R)
 rc=0
 for set in $SETS; do
-  for d in /verif/refactors/$set/refactor-*.diff; do
+  for d in $R/$set/refactor-*.diff; do
     n=$(basename "$d" .diff)
     git -C "$W" checkout -q -- . ; git -C "$W" clean -qfd
     if ! git -C "$W" apply "$d" 2>/dev/null && ! git -C "$W" apply --3way "$d" >/dev/null 2>&1; then echo "== $set $n: patch does not apply (tree moved on)"; continue; fi
